@@ -88,7 +88,9 @@ def ensure_runner(name):
     with _BUILD_LOCK:
         if name in _FRESH:
             return exe
-        _, vfile, target = model_entry(name)
+        entry = model_entry(name)
+        vfile, target = entry[1], entry[2]
+        extra = entry[3:4]
         newest = 0
         for root, _, files in os.walk(COQ):
             for f in files:
@@ -99,7 +101,7 @@ def ensure_runner(name):
             ok, log = coq_build([target])
             if not ok:
                 raise RuntimeError("coq build failed:\n" + "\n".join(log.splitlines()[-20:]))
-            subprocess.run([os.path.join(VERIF, "runner", "build.sh"), name, vfile], check=True)
+            subprocess.run([os.path.join(VERIF, "runner", "build.sh"), name, vfile] + extra, check=True)
         _FRESH.add(name)
     return exe
 
